@@ -116,7 +116,7 @@ impl Oracle for CrashOracle {
 			let failed = w.obs.iter().filter(|o| matches!(o, Obs::Event { ev: Event::PaymentFailed { payment_hash: Some(h), .. }, .. } if *h == p.hash)).count();
 			let f = |d: String| Failure::new("restart-payments", d);
 			if sent > 0 && failed > 0 {
-				return Err(f(format!("payment reported both PaymentSent (x{}) and PaymentFailed (x{})", sent, failed)));
+				return Err(f(crate::oracles::describe_sent_and_failed(w, p.from, &p.hash, sent, failed)));
 			}
 			if sent > 0 && !p.claimed_by_recipient {
 				return Err(f("PaymentSent although the recipient never released the preimage".into()));
@@ -220,6 +220,35 @@ pub fn scenarios(tier: Tier) -> Vec<C10Scn> {
 				async_from_start: vec![],
 			});
 		}
+		// "however far that manager lags behind the monitors": the manager stops being written at any
+		// point (sticky hold, 1 deviation) and the node crashes at any later point (1 deviation)
+		for (pol, pn) in [(ClaimPolicy::Claim, "claim"), (ClaimPolicy::Fail, "fail")] {
+			for (nodes, who, wn) in [(2usize, 0usize, "a"), (2, 1, "b"), (3, 1, "b"), (3, 0, "a"), (3, 2, "c")] {
+				if !th && !((nodes == 3 && who == 1) || (nodes == 2 && pn == "claim")) {
+					continue;
+				}
+				let hops = if nodes == 2 { vec![(1, 0)] } else { vec![(1, 0), (2, 1)] };
+				v.push(C10Scn {
+					name: format!("{}-{}-{}-lagging-manager-{}", n, if nodes == 2 { "ab" } else { "abc" }, pn, wn),
+					ct,
+					nodes,
+					ops: vec![Op::Send { from: 0, hops, amount_msat: 50_000_000, policy: pol.clone() }],
+					dev: Deviations {
+						reorder: None,
+						early_op: None,
+						crash: Some(1),
+						crash_inside: None,
+						complete_reorder: None,
+						hold_manager: Some(1),
+						early_release: None,
+						..Deviations::default()
+					},
+					k: 2,
+					crash_nodes: vec![who],
+					async_from_start: vec![],
+				});
+			}
+		}
 		// asynchronous writes in flight at the crash: every candidate snapshot
 		v.push(C10Scn {
 			name: format!("{}-abc-claim-async-b", n),
@@ -236,7 +265,12 @@ pub fn scenarios(tier: Tier) -> Vec<C10Scn> {
 }
 
 pub fn to_runner(s: C10Scn) -> Scenario {
-	let cfg = Config { max_deviations: s.k, horizon: 1200, ..Config::default() };
+	let mut cfg = Config { max_deviations: s.k, horizon: 1200, ..Config::default() };
+	if s.name.contains("lagging-manager") {
+		// a recorded finding lives here: keep exploring past it so that other violations are still seen
+		cfg.branch_below_violations = true;
+		cfg.max_violations = 5000;
+	}
 	let desc = json!({"check": "C10", "name": s.name});
 	let name = s.name.clone();
 	Scenario { name, cfg, factory: Box::new(move || build(&s)), desc }
